@@ -44,6 +44,16 @@ type c38Disk struct {
 	next    string // outcome of the next Save/Archive: ok fail crash-before crash-after
 	applied []string
 	calls   int
+	yields  int // Gosched calls before and after the real disk operation (concurrent steps)
+}
+
+func (d *c38Disk) yield() {
+	d.mu.Lock()
+	y := d.yields
+	d.mu.Unlock()
+	for i := 0; i < y; i++ {
+		runtime.Gosched()
+	}
 }
 
 func (d *c38Disk) take() string {
@@ -74,10 +84,12 @@ func (d *c38Disk) Save(data []byte, directory string, name string) error {
 		d.record("save " + directory + name)
 		panic(c38Crash{})
 	}
+	d.yield()
 	if err := d.ProtectedHandle.Save(data, directory, name); err != nil {
 		return err
 	}
 	d.record("save " + directory + name)
+	d.yield()
 	return nil
 }
 
@@ -94,10 +106,12 @@ func (d *c38Disk) Archive(directory string) error {
 		d.record("archive " + directory)
 		panic(c38Crash{})
 	}
+	d.yield()
 	if err := d.ProtectedHandle.Archive(directory); err != nil {
 		return err
 	}
 	d.record("archive " + directory)
+	d.yield()
 	return nil
 }
 
@@ -164,6 +178,7 @@ type c38Machine struct {
 
 	// statistics
 	archives, crashes, failures, restarts, reRegisteredAfterArchive, overwrites int
+	concurrentArchives                                                          int
 	concurrentSteps, concurrentNewWallet                                        int
 	archivedOnce                                                                map[int]bool
 	archiveSinceRestart, crashSinceRestart, ntRestart                           bool
@@ -406,28 +421,33 @@ func (m *c38Machine) compareWithRestarted() {
 // registerConcurrently registers several seats of one wallet from parallel
 // goroutines released together (the DKG executor registers one signer per
 // controlled seat this way). Storage works; the wallet ID function yields.
-func (m *c38Machine) registerConcurrently(w int, seats []group.MemberIndex, shareOf []int, yields int) {
+func (m *c38Machine) registerConcurrently(w int, seats []group.MemberIndex, shareOf []int, archivals int, yields int) {
 	type job struct {
-		s   *signer
+		s   *signer // nil: an archival of the wallet
 		rec []byte
 		err error
 		p   any
 	}
-	jobs := make([]*job, len(seats))
+	var jobs []*job
 	for i, idx := range seats {
 		s := newSigner(m.wallets[w].pk, m.wallets[w].operators, idx, m.shares[shareOf[i]])
 		rec, err := s.Marshal()
 		if err != nil {
 			m.t.Fatalf("VERIF-INCONCLUSIVE: cannot marshal a generated signer: %v", err)
 		}
-		jobs[i] = &job{s: s, rec: rec}
+		jobs = append(jobs, &job{s: s, rec: rec})
+	}
+	for i := 0; i < archivals; i++ {
+		jobs = append(jobs, &job{})
 	}
 	m.disk.mu.Lock()
 	m.disk.next = "ok"
+	m.disk.yields = yields
 	m.disk.mu.Unlock()
 	wasStored := m.stored(w)
 	mark := m.appliedMark()
 	c38IDYields.Store(int32(yields))
+	hash := bitcoin.PublicKeyHash(m.wallets[w].pk)
 	var ready atomic.Int32
 	var gate atomic.Bool
 	var wg sync.WaitGroup
@@ -440,7 +460,11 @@ func (m *c38Machine) registerConcurrently(w int, seats []group.MemberIndex, shar
 			for !gate.Load() {
 				runtime.Gosched()
 			}
-			j.err = m.reg.registerSigner(j.s)
+			if j.s == nil {
+				j.err = m.reg.archiveWallet(hash)
+			} else {
+				j.err = m.reg.registerSigner(j.s)
+			}
 		}(j)
 	}
 	for ready.Load() != int32(len(jobs)) {
@@ -449,31 +473,52 @@ func (m *c38Machine) registerConcurrently(w int, seats []group.MemberIndex, shar
 	gate.Store(true)
 	wg.Wait()
 	c38IDYields.Store(0)
-	m.logf("register-concurrently(w%d,m%v,yields=%d)", w, seats, yields)
+	m.disk.mu.Lock()
+	m.disk.yields = 0
+	m.disk.mu.Unlock()
+	m.logf("concurrently(w%d,register m%v,archive x%d,yields=%d)", w, seats, archivals, yields)
 	m.concurrentSteps++
 	if !wasStored {
 		m.concurrentNewWallet++
 	}
-	applied := map[string]bool{}
-	for _, a := range m.appliedSince(mark) {
-		applied[a] = true
+	if archivals > 0 {
+		m.concurrentArchives++
 	}
-	for i, j := range jobs {
+	for _, j := range jobs {
 		if j.p != nil {
-			m.fail("registerSigner panicked in a concurrent registration: %v", j.p)
+			m.fail("a registry call panicked in a concurrent step: %v", j.p)
 		}
-		idx := seats[i]
-		if applied[fmt.Sprintf("save %s/membership_%v", m.dirOf(w), idx)] {
+	}
+	// The storage calls of one registry are serialised by its lock, so the
+	// order in which they were applied is a linearisation of the step: replay
+	// it on the models (any order of the concurrent calls is acceptable).
+	bySeat := map[string]*job{}
+	for i, j := range jobs[:len(seats)] {
+		bySeat[fmt.Sprintf("save %s/membership_%v", m.dirOf(w), seats[i])] = j
+	}
+	saved := map[*job]bool{}
+	for _, a := range m.appliedSince(mark) {
+		if j, ok := bySeat[a]; ok {
+			idx := j.s.signingGroupMemberIndex
 			if _, again := m.storage[w][idx]; again {
 				m.overwrites++
 			}
 			m.storage[w][idx] = j.rec
-			if _, ok := m.registered[w][idx]; ok {
+			saved[j] = true
+			if _, known := m.registered[w][idx]; known || j.err == nil {
 				m.registered[w][idx] = j.rec
 			}
+		} else if a == "archive "+m.dirOf(w) {
+			m.storage[w] = map[group.MemberIndex][]byte{}
+			m.registered[w] = map[group.MemberIndex][]byte{}
+			m.archives++
+			m.archivedOnce[w] = true
+			m.archiveSinceRestart = true
 		}
-		if j.err == nil {
-			m.registered[w][idx] = j.rec
+	}
+	for _, j := range jobs[:len(seats)] {
+		if j.err == nil && !saved[j] {
+			m.registered[w][j.s.signingGroupMemberIndex] = j.rec // success reported without a write
 		}
 	}
 	// running registry == restarted registry == model
@@ -538,10 +583,14 @@ func TestVerif_C38_WalletRegistry(t *testing.T) {
 			seatOrder := rapid.Permutation([]group.MemberIndex{1, 2, 3, 4, 5}).Draw(t, "seats")
 			nSeats := rapid.IntRange(2, 5).Draw(t, "seatCount")
 			seatShares := rapid.SliceOfN(rapid.IntRange(0, len(shares)-1), 5, 5).Draw(t, "seatShares")
-			yields := rapid.IntRange(0, 3).Draw(t, "walletIdYields")
+			yields := rapid.IntRange(0, 3).Draw(t, "yields")
+			archivals := rapid.SampledFrom([]int{0, 0, 1, 1, 2}).Draw(t, "concurrentArchivals")
+			if rapid.IntRange(0, 5).Draw(t, "archivalsOnly") == 0 && archivals == 2 {
+				nSeats = 0 // archive || archive
+			}
 			switch op {
 			case "register-concurrently":
-				m.registerConcurrently(w, seatOrder[:nSeats], seatShares[:nSeats], yields)
+				m.registerConcurrently(w, seatOrder[:nSeats], seatShares[:nSeats], archivals, yields)
 				continue
 			case "register":
 				s := newSigner(m.wallets[w].pk, m.wallets[w].operators, idx, shares[share])
@@ -631,6 +680,7 @@ func TestVerif_C38_WalletRegistry(t *testing.T) {
 			fmt.Sprintf("member-overwritten:%v", m.overwrites > 0),
 			fmt.Sprintf("concurrent-registration-steps:%d", min(m.concurrentSteps, 4)),
 			fmt.Sprintf("concurrent-registration-of-new-wallet:%d", min(m.concurrentNewWallet, 3)),
+			fmt.Sprintf("concurrent-steps-with-archival:%d", min(m.concurrentArchives, 3)),
 			"signers-at-end:"+strings.Join(stored, "/"))
 	})
 }
